@@ -32,6 +32,9 @@ type c11Req struct {
 	// Op "update": a runtime reconfiguration that does not ask for another squash mode (Squash is documented
 	// immutable at runtime, so the construction mode stays in force whatever the update's fate)
 	Upd string `json:"upd,omitempty"` // policy-empty policy-same export-empty export-same
+	// RootFirst: another user of the same client machine (uid 0, or uid 2000 when the case's caller is root) issues a
+	// GETATTR immediately before this request, on the same connection when the case runs over one.
+	RootFirst bool `json:"root_first,omitempty"`
 }
 
 type c11Case struct {
@@ -41,6 +44,9 @@ type c11Case struct {
 	Aux    []uint32 `json:"aux"`
 	None   bool     `json:"auth_none"`
 	Reqs   []c11Req `json:"reqs"`
+	// Conn: every request travels over the server's record-marking connection loop (one connection per client
+	// address, shared by all credentials of that address) instead of a direct HandleCall.
+	Conn bool `json:"conn,omitempty"`
 }
 
 func genC11(t *rapid.T) c11Case {
@@ -49,6 +55,7 @@ func genC11(t *rapid.T) c11Case {
 		Uid:    pick(t, "uid", uint32(0), 0, 1, 1000, 65534, 1<<32-1),
 		Gid:    pick(t, "gid", uint32(0), 0, 1, 1000, 65534),
 		None:   rapid.IntRange(0, 9).Draw(t, "none") == 0,
+		Conn:   rapid.Bool().Draw(t, "conn"),
 	}
 	if rapid.Bool().Draw(t, "aux") {
 		c.Aux = []uint32{0, 7}
@@ -62,7 +69,8 @@ func genC11(t *rapid.T) c11Case {
 			How:    pick(t, "how", uint32(0), 1, 2),
 			SetUid: rapid.Bool().Draw(t, "su"), SetGid: rapid.Bool().Draw(t, "sg"),
 			UidSel: rapid.IntRange(0, 2).Draw(t, "us"), GidSel: rapid.IntRange(0, 2).Draw(t, "gs"),
-			Mode: rapid.Bool().Draw(t, "mode"),
+			Mode:      rapid.Bool().Draw(t, "mode"),
+			RootFirst: rapid.IntRange(0, 2).Draw(t, "rootfirst") == 0,
 		})
 	}
 	return c
@@ -76,6 +84,7 @@ func runC11(tb stat.TB, c c11Case) {
 	v.SeedSymlink("/l", "f", 10, 20)
 	s := newSession(tb, v, absnfs.ExportOptions{Squash: c.Squash, AttrCacheTimeout: 1, AttrCacheSize: 2})
 	defer s.close()
+	s.e.ViaConn = c.Conn
 	cred := nfsx.AuthSys(1, "h", c.Uid, c.Gid, c.Aux)
 	eu, eg, _, _ := refSquash(c.Squash, c.Uid, c.Gid, c.Aux)
 	if c.None {
@@ -118,6 +127,13 @@ func runC11(tb stat.TB, c c11Case) {
 			}
 			if rq.Mode {
 				sa.Mode = nfsx.U32p(0640)
+			}
+			if rq.RootFirst && rq.Op != "update" {
+				other := drv.Root()
+				if c.Uid == 0 && !c.None {
+					other = drv.User(2000, 2000)
+				}
+				s.nfsAs(other, nfsx.ProcGetattr, nfsx.ArgsFh(fh["f"]))
 			}
 			v.ResetCalls()
 			name := fmt.Sprintf("new%d", i)
@@ -193,7 +209,11 @@ func runC11(tb stat.TB, c c11Case) {
 	if abandoned {
 		return
 	}
-	stat.Case(c, nt, "squash_"+strings.ToLower(c.Squash))
+	ls := []string{"squash_" + strings.ToLower(c.Squash)}
+	if c.Conn {
+		ls = append(ls, "over_connection_loop")
+	}
+	stat.Case(c, nt, ls...)
 }
 
 func ptrStr(p *uint32) string {
